@@ -8,6 +8,7 @@ import (
 	"go/constant"
 	"go/token"
 	"go/types"
+	"hash/fnv"
 	"math/big"
 	"os"
 	"strconv"
@@ -33,26 +34,27 @@ type TypeV struct{ T types.Type }
 func (TypeV) GoType() types.Type { return nil }
 
 type specCtx struct {
-	x         *Exec
-	st        *State
-	vars      map[string]Value
-	lets      map[string]Value
-	pkg       *ssa.Package
-	fn        *ssa.Function
-	heap      map[string]Term
-	old       *preSnap
-	frame     *Frame
-	atExit    bool
-	panicking bool
-	bound     map[string]Value
-	evFrom    int
-	letExprs  map[string]ast.Expr
-	letBusy   map[string]bool
-	addrVars  map[string]PtrV
-	preferEnv bool
-	noGhost   bool // evaluating a callee's contract at a call site: its ghost event queries are not visible here
-	head      *headSnap
-	envOver   map[string]envEntry // when set, replaces the frame's variable environment
+	x          *Exec
+	st         *State
+	vars       map[string]Value
+	lets       map[string]Value
+	pkg        *ssa.Package
+	fn         *ssa.Function
+	heap       map[string]Term
+	old        *preSnap
+	frame      *Frame
+	atExit     bool
+	panicking  bool
+	bound      map[string]Value
+	evFrom     int
+	letExprs   map[string]ast.Expr
+	letBusy    map[string]bool
+	addrVars   map[string]PtrV
+	preferEnv  bool
+	noGhost    bool // evaluating a callee's contract at a call site: its ghost event queries are not visible here
+	head       *headSnap
+	envOver    map[string]envEntry // when set, replaces the frame's variable environment
+	needEvents int                 // ret/arg of the k-th occurrence: events after it need not be definite
 }
 
 func (x *Exec) specCtxFor(st *State, fr *Frame, pre *preSnap) *specCtx {
@@ -692,6 +694,18 @@ func (x *Exec) evalSpecCall2(sc *specCtx, e *ast.CallExpr) Value {
 		}
 		for k, v := range sc.bound {
 			o.vars[k] = v
+		}
+		return x.evalSpec(&o, e.Args[0])
+	case "tail":
+		// tail(e): e over the events since the last arrival at a loop head of the function under verification,
+		// i.e. the final (partial) iteration and what follows the loop; without a loop: the whole trace
+		need(1)
+		o := *sc
+		for i := len(sc.st.events) - 1; i >= sc.evFrom; i-- {
+			if ev := sc.st.events[i]; ev.Kind == "loop-summary" && ev.Root {
+				o.evFrom = i + 1
+				break
+			}
 		}
 		return x.evalSpec(&o, e.Args[0])
 	case "at_head":
@@ -1531,6 +1545,12 @@ func (x *Exec) ghostCalls(sc *specCtx, args []ast.Expr) Term {
 	var sum []Term
 	n := 0
 	for _, ev := range sc.st.events[sc.evFrom:] {
+		if ev.Kind == "loop-summary" {
+			if x.summaryMayMatch(sc, ev, args[0]) {
+				sum = append(sum, x.summaryCount(sc, ev, args))
+			}
+			continue
+		}
 		m := x.matchEvent(sc, args[0], ev)
 		if m.S == "false" {
 			continue
@@ -1571,6 +1591,86 @@ func (x *Exec) ghostCalls(sc *specCtx, args []ast.Expr) Term {
 	return mk(SInt, "+", sum...)
 }
 
+// summaryMayMatch: can the loop whose earlier iterations ev summarises have emitted an event that the
+// designator f denotes? (by name, syntactically)
+func (x *Exec) summaryMayMatch(sc *specCtx, ev *Event, f ast.Expr) bool {
+	if ev.Wild {
+		return true
+	}
+	if id, ok := f.(*ast.Ident); ok {
+		if le, ok := sc.letExprs[id.Name]; ok {
+			if ce, ok := le.(*ast.CallExpr); ok {
+				if fid, ok := ce.Fun.(*ast.Ident); ok && fid.Name == "on" {
+					f = le
+				}
+			}
+		}
+	}
+	var key string
+	isVar := false
+	switch e := f.(type) {
+	case *ast.CallExpr:
+		if id, ok := e.Fun.(*ast.Ident); ok && id.Name == "on" && len(e.Args) == 2 {
+			if lit, ok := e.Args[0].(*ast.BasicLit); ok {
+				key, _ = strconv.Unquote(lit.Value)
+			}
+		}
+	case *ast.BasicLit:
+		if e.Kind == token.STRING {
+			key, _ = strconv.Unquote(e.Value)
+		}
+	case *ast.Ident:
+		key = e.Name
+		if v, ok := sc.lookupVar(e.Name); ok {
+			if fv, ok := v.(FuncV); ok {
+				isVar = true
+				if fv.Fn != nil {
+					key = fv.Fn.Name()
+				}
+			}
+		}
+	case *ast.SelectorExpr:
+		key = e.Sel.Name
+		if x.isFuncField(sc, e) {
+			isVar = true
+		}
+	}
+	if key == "" {
+		return true
+	}
+	if isVar && ev.Dyn {
+		return true
+	}
+	for t := range ev.Tokens {
+		if t == key || nameMatches(t, key) || nameMatches(key, t) {
+			return true
+		}
+	}
+	if strings.HasPrefix(key, "go ") && ev.Tokens["go"] && ev.Dyn {
+		return true
+	}
+	return false
+}
+
+// summaryCount: the (unknown, non-negative) number of events matching the designator (and argument patterns)
+// that the summarised iterations emitted; one symbol per loop summary and query text, so an invariant such as
+// `calls(f) == i` carries the count across the cut.
+func (x *Exec) summaryCount(sc *specCtx, ev *Event, args []ast.Expr) Term {
+	var parts []string
+	for _, a := range args {
+		parts = append(parts, exprString(a))
+	}
+	name := fmt.Sprintf("lc%d_%s", ev.ID, sanitize(strings.Join(parts, ",")))
+	if len(name) > 120 {
+		h := fnv.New32a()
+		h.Write([]byte(name))
+		name = fmt.Sprintf("%s_%x", name[:100], h.Sum32())
+	}
+	c := x.sym.declareConst(name, SInt)
+	sc.st.assume(mk(SBool, "<=", intLit(0), c))
+	return c
+}
+
 func isMethodSel(sc *specCtx, f ast.Expr) bool {
 	se, ok := f.(*ast.SelectorExpr)
 	if !ok {
@@ -1599,6 +1699,18 @@ func (x *Exec) definiteEvents(sc *specCtx, f ast.Expr) (res []*Event) {
 	}()
 	var out []*Event
 	for _, ev := range sc.st.events[sc.evFrom:] {
+		if ev.Kind == "loop-summary" {
+			if x.summaryMayMatch(sc, ev, f) {
+				c := x.summaryCount(sc, ev, []ast.Expr{f})
+				if !x.entails(sc.st, eq(c, intLit(0))) {
+					if sc.needEvents > 0 && len(out) >= sc.needEvents {
+						return out // the occurrence asked for lies before the loop
+					}
+					panic(indefinite{}) // an unknown number of matching events happened in the loop
+				}
+			}
+			continue
+		}
 		m := x.matchEvent(sc, f, ev)
 		switch m.S {
 		case "true":
@@ -1615,8 +1727,69 @@ func (x *Exec) definiteEvents(sc *specCtx, f ast.Expr) (res []*Event) {
 	return out
 }
 
+// lastEvent: the most recent event f denotes, nil when there is none or it is not definite.
+func (x *Exec) lastEvent(sc *specCtx, f ast.Expr) *Event {
+	evs := sc.st.events[sc.evFrom:]
+	for i := len(evs) - 1; i >= 0; i-- {
+		ev := evs[i]
+		if ev.Kind == "loop-summary" {
+			if x.summaryMayMatch(sc, ev, f) && !x.entails(sc.st, eq(x.summaryCount(sc, ev, []ast.Expr{f}), intLit(0))) {
+				return nil
+			}
+			continue
+		}
+		m := x.matchEvent(sc, f, ev)
+		switch m.S {
+		case "true":
+			return ev
+		case "false":
+		default:
+			if x.entails(sc.st, m) {
+				return ev
+			} else if !x.entails(sc.st, not(m)) {
+				return nil
+			}
+		}
+	}
+	return nil
+}
+
 func (x *Exec) ghostEventQuery(sc *specCtx, kind string, args []ast.Expr) Value {
+	sc.needEvents = 0
+	if kind == "ret" || kind == "arg" {
+		sc.needEvents = 1
+		if len(args) > 2 {
+			if lit, ok := args[2].(*ast.BasicLit); ok {
+				sc.needEvents, _ = strconv.Atoi(lit.Value)
+			}
+		}
+	}
+	if (kind == "ret" || kind == "arg") && len(args) > 2 {
+		if id, ok := args[2].(*ast.Ident); ok && id.Name == "last" {
+			// ret(f, i, last): the most recent call of f (definite even when earlier iterations of a loop made
+			// an unknown number of such calls)
+			ev := x.lastEvent(sc, args[0])
+			if ev == nil {
+				return PoisonV{}
+			}
+			idx := 0
+			if lit, ok := args[1].(*ast.BasicLit); ok {
+				idx, _ = strconv.Atoi(lit.Value)
+			}
+			if kind == "ret" {
+				if idx >= len(ev.Results) {
+					return PoisonV{}
+				}
+				return ev.Results[idx]
+			}
+			if idx >= len(ev.Args) {
+				panic(engineErr("arg(%s): argument index out of range", exprString(args[0])))
+			}
+			return ev.Args[idx]
+		}
+	}
 	evs := x.definiteEvents(sc, args[0])
+	sc.needEvents = 0
 	intArg := func(i int, def int) int {
 		if len(args) <= i {
 			return def
@@ -1665,13 +1838,46 @@ func (x *Exec) ghostEventQuery(sc *specCtx, kind string, args []ast.Expr) Value 
 	panic(engineErr("bad ghost query %s", kind))
 }
 
-// ghostBefore: every call of f precedes every call of g (vacuous if either is absent).
+// ghostBefore: every call of f precedes every call of g (vacuous if either is absent). A loop whose earlier
+// iterations may have made such calls counts as a possible call at the position of its head.
 func (x *Exec) ghostBefore(sc *specCtx, f, g ast.Expr) Term {
-	fe := x.definiteEvents(sc, f)
-	ge := x.definiteEvents(sc, g)
+	positions := func(h ast.Expr) []int {
+		var out []int
+		defer func() {
+			if r := recover(); r != nil {
+				if _, ok := r.(indefinite); ok {
+					panic(poisonSignal{})
+				}
+				panic(r)
+			}
+		}()
+		for i, ev := range sc.st.events[sc.evFrom:] {
+			if ev.Kind == "loop-summary" {
+				if x.summaryMayMatch(sc, ev, h) && !x.entails(sc.st, eq(x.summaryCount(sc, ev, []ast.Expr{h}), intLit(0))) {
+					out = append(out, i)
+				}
+				continue
+			}
+			m := x.matchEvent(sc, h, ev)
+			switch m.S {
+			case "true":
+				out = append(out, i)
+			case "false":
+			default:
+				if x.entails(sc.st, m) {
+					out = append(out, i)
+				} else if !x.entails(sc.st, not(m)) {
+					panic(indefinite{})
+				}
+			}
+		}
+		return out
+	}
+	fe := positions(f)
+	ge := positions(g)
 	for _, a := range fe {
 		for _, b := range ge {
-			if a.Index >= b.Index {
+			if a >= b {
 				return tFalse
 			}
 		}
